@@ -57,19 +57,83 @@ def chunks(seq, n):
     return [seq[i : i + size] for i in range(0, len(seq), size)]
 
 
+class CaseTimeout(BaseException):
+    """Raised (from a signal handler) inside a case that used more CPU time than any case needs on the unchanged
+    tree.  A BaseException so that neither the library's nor a check's ``except Exception`` swallows it."""
+
+
+def default_cpu_limit():
+    import os
+
+    return float(os.environ.get("VERIF_CASE_CPU_LIMIT", "900"))
+
+
+class cpu_limit:
+    """Context manager: CaseTimeout after ``seconds`` of CPU time of this process (ITIMER_PROF, so machine load does not
+    matter), or after 30x that in wall-clock time (ITIMER_REAL, for waits that burn no CPU).  Main thread only."""
+
+    def __init__(self, seconds):
+        self.seconds = seconds
+
+    def _fire(self, signum, frame):
+        raise CaseTimeout(f"no result after {self.seconds:g} s of CPU time")
+
+    def __enter__(self):
+        import signal
+        import threading
+
+        self.active = self.seconds and self.seconds > 0 and threading.current_thread() is threading.main_thread()
+        if self.active:
+            self.old = (signal.signal(signal.SIGPROF, self._fire), signal.signal(signal.SIGALRM, self._fire))
+            signal.setitimer(signal.ITIMER_PROF, self.seconds)
+            signal.setitimer(signal.ITIMER_REAL, 30 * self.seconds)
+        return self
+
+    def __exit__(self, *exc):
+        import signal
+
+        if self.active:
+            signal.setitimer(signal.ITIMER_PROF, 0)
+            signal.setitimer(signal.ITIMER_REAL, 0)
+            signal.signal(signal.SIGPROF, self.old[0])
+            signal.signal(signal.SIGALRM, self.old[1])
+        return False
+
+
+def timeout_record(item, seconds, what="case"):
+    from vf.cli import _jsonable
+
+    return {
+        "evaluations": 1, "inadmissible": 0, "nontrivial": 0, "nontrivial_ids": [], "samples": [], "notes": [],
+        "maxima": {}, "section": "case-timeout",
+        "violations": [{
+            "key": "case-did-not-finish",
+            "what": f"{what} {str(_jsonable(item))[:300]} did not finish within {seconds:g} s of CPU time (on the unchanged tree "
+                    f"every case of this check finishes in a small fraction of that): the call hangs or has become "
+                    f"orders of magnitude slower",
+            "case": {"route": "case-timeout", "item": _jsonable(item)},
+            "details": {},
+        }],
+    }
+
+
 class _Guard:
     """Picklable wrapper: an unexpected exception inside a worker (almost always raised by the
     library under test on an input the worker did not anticipate) becomes a violation record
     instead of killing the whole run.  HarnessError (oracle self-tests, nondeterminism) passes."""
 
-    def __init__(self, func):
+    def __init__(self, func, limit=None):
         self.func = func
+        self.limit = default_cpu_limit() if limit is None else limit
 
     def __call__(self, item):
         from vf.cli import HarnessError, _jsonable
 
         try:
-            return self.func(item)
+            with cpu_limit(self.limit):
+                return self.func(item)
+        except CaseTimeout:
+            return timeout_record(item, self.limit)
         except HarnessError:
             raise
         except Exception as exc:  # noqa: BLE001
@@ -89,7 +153,7 @@ class _Guard:
             }
 
 
-def pmap(func, items, workers, chunksize=1, guard=True):
+def pmap(func, items, workers, chunksize=1, guard=True, limit=None):
     """Order-preserving parallel map over a fork pool of long-lived workers.
 
     ``func`` must be a module-level function; results are plain picklable data.
@@ -97,7 +161,7 @@ def pmap(func, items, workers, chunksize=1, guard=True):
     """
     items = list(items)
     if guard:
-        func = _Guard(func)
+        func = _Guard(func, limit)
     if workers <= 1 or len(items) <= 1:
         return [func(it) for it in items]
     ctx = mp.get_context("fork")
@@ -105,10 +169,10 @@ def pmap(func, items, workers, chunksize=1, guard=True):
         return pool.map(func, items, chunksize=chunksize)
 
 
-def pmap_unordered(func, items, workers, chunksize=1, guard=True):
+def pmap_unordered(func, items, workers, chunksize=1, guard=True, limit=None):
     items = list(items)
     if guard:
-        func = _Guard(func)
+        func = _Guard(func, limit)
     if workers <= 1 or len(items) <= 1:
         for it in items:
             yield func(it)
